@@ -125,6 +125,53 @@ class Ctx:
         return self._paths[key]
 
 
+_WORK = {}
+
+
+def _worker(cfg):
+    ctx, mod = _WORK["ctx"], _WORK["mod"]
+    rep = Report(ctx.prop)
+    try:
+        mod.run_config(ctx, rep, cfg, ctx.facts[cfg])
+    except Exception as ex:  # a crash of the rule code is a broken check, never a pass
+        import traceback
+        rep.bad("engine", cfg, type(ex).__name__, "rule code crashed on configuration %s: %s\n%s" % (cfg, ex, traceback.format_exc()[-1500:]),
+                kind="unrecognised")
+    return cfg, rep
+
+
+def run_rules(ctx, mod, rep, jobs=16):
+    """run mod.run_config for every configuration (forked workers), merge, then mod.finalize"""
+    import multiprocessing as mp
+    if hasattr(mod, "declare"):
+        mod.declare(rep)
+    cfgs = list(ctx.facts)
+    _WORK["ctx"], _WORK["mod"] = ctx, mod
+    if len(cfgs) > 1 and jobs > 1:
+        with mp.get_context("fork").Pool(min(jobs, len(cfgs))) as pool:
+            results = pool.map(_worker, cfgs)
+    else:
+        results = [_worker(c) for c in cfgs]
+    for cfg, r in results:
+        rep.instances += r.instances
+        rep.matched |= r.matched
+        for f in r.findings:
+            if not any(g.key == f.key for g in rep.findings):
+                rep.findings.append(f)
+        for s_ in r.samples:
+            if len(rep.samples) < 12:
+                rep.samples.append(s_)
+        for k, v in r.counts.items():
+            rep.counts[k] = rep.counts.get(k, 0) + v if not k.endswith(")") else v
+        rep.canaries += r.canaries
+    if hasattr(mod, "finalize"):
+        try:
+            mod.finalize(ctx, rep)
+        except Exception as ex:
+            import traceback
+            rep.bad("engine", "finalize", type(ex).__name__, "rule code crashed: %s\n%s" % (ex, traceback.format_exc()[-1500:]), kind="unrecognised")
+
+
 def opts_key(opts):
     if not opts:
         return {}
@@ -138,7 +185,7 @@ def load_known():
         return json.load(f)
 
 
-def finish(ctx, rep, t0, level_text, assumptions):
+def finish(ctx, rep, t0, level_text, assumptions, write_evidence=True):
     """print VIOLATION / KNOWN-FINDING lines, write evidence, return exit code"""
     known = load_known()
     open_keys = {e["key"]: e for e in known.get("open", []) if e.get("property") == rep.prop}
@@ -188,8 +235,9 @@ def finish(ctx, rep, t0, level_text, assumptions):
         "wall_s": round(time.time() - t0, 2),
         "violations": len(violations),
     }
-    with open(os.path.join(EVIDENCE, "%s.json" % rep.prop), "w") as fh:
-        json.dump(ev, fh, indent=1, default=str)
+    if write_evidence:
+        with open(os.path.join(EVIDENCE, "%s.json" % rep.prop), "w") as fh:
+            json.dump(ev, fh, indent=1, default=str)
     n_ok = len(rep.matched)
     print("%s %s: %d rule instances evaluated, %d distinct held, %d findings (%d known), %d configs, %.1fs" % (
         rep.prop, ctx.tier, rep.instances, n_ok, len(rep.findings), len(known_hit), len(ctx.facts), time.time() - t0))
